@@ -475,6 +475,9 @@ func (d *dumper) exprBody(e ast.Expr) string {
 			return "_"
 		}
 		if o := info.Uses[x]; o != nil {
+			if inst, ok := info.Instances[x]; ok { // a generic function used with inferred or explicit type arguments
+				return d.objKey(o) + instArgs(inst)
+			}
 			return d.objKey(o)
 		}
 		if o := info.Defs[x]; o != nil {
@@ -510,12 +513,13 @@ func (d *dumper) exprBody(e ast.Expr) string {
 		return "sel?(" + d.expr(x.X) + "." + x.Sel.Name + ")"
 	case *ast.IndexExpr:
 		if inst, ok := info.Instances[identOf(x.X)]; ok && identOf(x.X) != nil {
-			return "inst(" + d.expr(x.X) + instArgs(inst) + ")"
+			// explicit instantiation: the same rendering as an inferred one (f[int] == f with T=int)
+			return d.objKey(info.Uses[identOf(x.X)]) + instArgs(inst)
 		}
 		return "index(" + d.expr(x.X) + ", " + d.expr(x.Index) + ")"
 	case *ast.IndexListExpr:
 		if inst, ok := info.Instances[identOf(x.X)]; ok && identOf(x.X) != nil {
-			return "inst(" + d.expr(x.X) + instArgs(inst) + ")"
+			return d.objKey(info.Uses[identOf(x.X)]) + instArgs(inst)
 		}
 		return "index(" + d.expr(x.X) + ", " + d.exprs(x.Indices) + ")"
 	case *ast.SliceExpr:
